@@ -983,7 +983,11 @@ def c09(tr, acc, case):
     result_ticks = defaultdict(list)
     for t in tr.ticks:
         if t["tick"] == "TickStepResult" and t["step"] == "gather":
-            result_ticks[t["uid"]].append(t["n"])
+            # the engine took the outcome in only if the invocation is gone from the step's in-progress set afterwards (a stale
+            # optimistic completion stays there and is run again -- even if the run ends before that re-run gets to start)
+            still = any(x[1] == t["uid"] for x in t["post"].get("gather", {}).get("ipe", []))
+            if not still:
+                result_ticks[t["uid"]].append(t["n"])
     for r in recs:
         acc.hit("collect_call")
         if r["got"] is None:
@@ -1016,7 +1020,7 @@ def c09(tr, acc, case):
     final = {}
     for r in recs:
         ex = exits.get(r["bid"])
-        if last_bid.get(r["uid"]) == r["bid"] and ex is not None and any(n > ex["n"] for n in result_ticks.get(r["uid"], [])):
+        if last_bid.get(r["uid"]) == r["bid"] and ex is not None and str(ex["how"]).startswith("return") and any(n > ex["n"] for n in result_ticks.get(r["uid"], [])):
             final[r["uid"]] = r  # last body of the operation wins (earlier ones were optimistic runs that got re-run)
     by_buf = defaultdict(list)
     for uid, r in final.items():
